@@ -1366,7 +1366,13 @@ fn format_single_arg_call_without_parens(
             .is_single_arg_no_parens()
             .then(|| args_list.get_single_arg_expr())
             .flatten(),
-        SingleArgCallParens::Omit => args_list.get_single_arg_expr(),
+        // Parentheses are optional only around a sole string/table argument; `f("x", 1)` or
+        // `f(--[[c]] "x")` must keep them (and their other arguments / comments).
+        SingleArgCallParens::Omit => (args_list.is_single_arg_no_parens()
+            || (args_list.get_args().count() == 1
+                && !node_has_direct_comment_child(args_list.syntax())))
+        .then(|| args_list.get_single_arg_expr())
+        .flatten(),
     }?;
 
     Some(match single_arg {
